@@ -61,6 +61,7 @@ struct Ctx {
     uint64_t hist = 7;                   // history fingerprint
     uint64_t invocations = 0, behav_fired = 0, ops_done = 0;
     struct aws_linked_list staging; // caller-owned list that borrows task->node while a task is not scheduled
+    int64_t chain_left = 0; // clean-up chain: a task cancelled by clean_up schedules itself again, this many more times in total
     int cleanup_sched_budget = 0; // bounds task functions that keep scheduling during clean-up (a caller-made infinite loop otherwise)
 };
 static Ctx *g = nullptr;
@@ -229,6 +230,12 @@ void task_fn(struct aws_task *task, void *arg, enum aws_task_status status) {
     t.in_batch = false;
     t.idle_cancel = false;
     t.running++;
+    if (c.in_cleanup && status == AWS_TASK_STATUS_CANCELED && c.chain_left > 0) {
+        // every generation needs one more cancellation pass of clean_up: however long the chain, the last link must be invoked too
+        c.chain_left--;
+        if (c.chain_left & 1) do_sched_now(c, t); else do_sched_fut(c, t, c.now + (uint64_t)(c.chain_left % 5), false);
+        if (c.chain_left == 0) sim::probe("cleanup_chain_completed");
+    } else
     run_behaviours(c, t, status == AWS_TASK_STATUS_RUN_READY ? t.on_run : t.on_cancel);
     t.running--;
 }
@@ -277,6 +284,11 @@ void do_run_all(Ctx &c, uint64_t now) {
 void do_cleanup_reinit(Ctx &c, bool reinit) {
     for (auto &t : c.tasks) if (t.state == PENDING) { sim::probe("cleanup_with_pending_tasks"); break; }
     c.in_cleanup = true;
+    if (!reinit) { // the final clean-up of the run carries the chain, if the plan has one
+        c.chain_left = c.plan->get("cleanup_chain", 0);
+        if (c.chain_left > (1 << 20)) sim::probe("cleanup_chain_longer_than_2_to_20");
+        else if (c.chain_left > 0) sim::probe("cleanup_chain");
+    }
     c.cleanup_sched_budget = 6;
     aws_task_scheduler_clean_up(&c.sched);
     c.in_cleanup = false;
@@ -369,6 +381,7 @@ RunInfo run(const sim::Plan &plan) {
         check_staging(c, "after op");
         simalloc::check_all("after op");
     }
+    if (plan.get("cleanup_chain", 0) > 0) do_sched_now(c, c.tasks[0]); // something for the chain to start from (no-op if task 0 is pending)
     do_cleanup_reinit(c, false);
     for (auto &t : c.tasks)
         if (t.invoked_instance != t.instance)
@@ -399,6 +412,7 @@ void gen(uint64_t seed, int tier, sim::Plan &p) {
     // scheduled and cancelled with compact bulk operations so that the plan stays a handful of operations
     bool mega = !many && r.chance(tier ? 0.0012 : 0.0006);
     if (mega) { double e = (double)r.range(0, 1000) / 1000.0; nt = (int)(2000.0 * pow(150.0, e)); }
+    if (r.chance(tier ? 0.0008 : 0.0004)) { double e = (double)r.range(0, 1000) / 1000.0; p.cfg["cleanup_chain"] = (int64_t)(1000.0 * pow(2000.0, e)); }
     p.cfg["ntasks"] = nt;
     p.cfg["max_resched"] = r.range(0, 3);
     p.cfg["alloc_realloc"] = r.chance(0.8);
